@@ -304,7 +304,13 @@ func runE2E1(c E2ECase) ev.Verdict {
 				return ev.Fail("%s: rpc %d: the server did not receive the %d byte filter intact", c.Flavour, i, len(filter))
 			}
 
-			want := fmt.Sprintf(`<rpc-reply xmlns="%s" message-id="%d">%s</rpc-reply>`, sim.BaseNS, 101+i, c.NCBody[i])
+			// (the id is the one the request carried on the wire, whatever numbering the library uses)
+			id := fmt.Sprint(101 + i)
+			if i < len(nc.Requests) {
+				id = nc.Requests[i].MessageID
+			}
+
+			want := fmt.Sprintf(`<rpc-reply xmlns="%s" message-id="%s">%s</rpc-reply>`, sim.BaseNS, id, c.NCBody[i])
 			if r.Result != want {
 				return ev.Fail("%s (%s): rpc %d result %q, over an ideal pipe it is %q", c.Flavour, c.Version, i, r.Result, want)
 			}
